@@ -525,9 +525,6 @@ func (runInfo *runInfoStruct) runForSliceStmt(stmt *ast.ForStmt, value reflect.V
 		if iv.Kind() == reflect.Interface && !iv.IsNil() {
 			iv = iv.Elem()
 		}
-		if iv.Kind() == reflect.Ptr && !iv.IsNil() {
-			iv = iv.Elem()
-		}
 		runInfo.env.DefineValue(stmt.Vars[0], detachValue(iv))
 
 		runInfo.stmt = stmt.Stmt
@@ -622,10 +619,6 @@ func (runInfo *runInfoStruct) runForChanStmt(stmt *ast.ForStmt, value reflect.Va
 		if runInfo.rv.Kind() == reflect.Interface && !runInfo.rv.IsNil() {
 			runInfo.rv = runInfo.rv.Elem()
 		}
-		if runInfo.rv.Kind() == reflect.Ptr && !runInfo.rv.IsNil() {
-			runInfo.rv = runInfo.rv.Elem()
-		}
-
 		runInfo.env.DefineValue(stmt.Vars[0], detachValue(runInfo.rv))
 
 		runInfo.stmt = stmt.Stmt
